@@ -21,7 +21,7 @@
       [files_per_vol == 1 and file_shape[2] != 1] of get_data) are outside the model: every file is one
       rows x cols x 1 image. *)
 From Coq Require Import List Bool Arith ZArith NArith QArith Qcanon Lia.
-From DV Require Import Common.Res Common.Str Stack.Model Orient.Model.
+From DV Require Import Common.Res Common.Str Generated.T_conv Stack.Model Orient.Model.
 Import ListNotations.
 Local Open Scope nat_scope.
 
@@ -46,8 +46,9 @@ Fixpoint glookup (gs : list gfile) (id : nat) : option gfile :=
   | g :: r => if Nat.eqb (f_id (g_file g)) id then Some g else glookup r id
   end.
 
-Definition uint16_str : str := [117; 105; 110; 116; 49; 54]%N.    (* "uint16" *)
-Definition int16_str : str := [105; 110; 116; 49; 54]%N.          (* "int16" *)
+(** the dtype names of the "fslview hack" come from the source (Generated/T_conv.v): "uint16" -> "int16" *)
+Definition uint16_str : str := hack_from.
+Definition int16_str : str := hack_to.
 Definition g_unsigned16 (g : gfile) : bool := str_eqb (g_dtype g) uint16_str.
 
 (* ------------------------------------------------------------------------------------------ *)
@@ -94,7 +95,8 @@ Definition pix_at (g : gfile) (i j : nat) : option Z :=
 (** * from_dicom_wrapper: the single-file NIfTI image *)
 
 (** [np.diag([-1., -1., 1., 1.])]: DICOM patient space (LPS) -> NIfTI (RAS) *)
-Definition lps2ras : mat := [[-1; 0; 0; 0]; [0; -1; 0; 0]; [0; 0; 1; 0]; [0; 0; 0; 1]]%Q.
+Definition lps2ras : mat :=
+  map (fun i => map (fun j => if i =? j then nth i lps2ras_diag 0%Q else 0%Q) (seq 0 4)) (seq 0 4).
 
 (** [affine = np.dot(np.diag([-1., -1., 1., 1.]), dcm_wrp.affine)] *)
 Definition file_affine (g : gfile) : mat := mmul lps2ras (dicom_affine g).
@@ -140,9 +142,9 @@ Definition stack_data (gs : list gfile) (order : list nat) (sh : list nat) : arr
 (** dtype of the output: the first (sorted) file's, except for the "fslview hack":
     [if stack_dtype == np.uint16 and bits_stored < 16: stack_dtype = np.int16]
     ([bits_stored = get_meta('BitsStored', default=16)]) *)
-Definition bits_stored_of (g : gfile) : nat := match g_bits_stored g with Some b => b | None => 16 end.
+Definition bits_stored_of (g : gfile) : nat := match g_bits_stored g with Some b => b | None => bits_stored_default end.
 Definition stack_dtype (g0 : gfile) : str :=
-  if g_unsigned16 g0 && (bits_stored_of g0 <? 16) then int16_str else g_dtype g0.
+  if g_unsigned16 g0 && (bits_stored_of g0 <? hack_bits) then int16_str else g_dtype g0.
 
 (* ------------------------------------------------------------------------------------------ *)
 (** * get_affine *)
